@@ -6,6 +6,7 @@ LOGS = sys.argv[1] if len(sys.argv) > 1 else '/tmp/mt2/logs'
 for f in sorted(glob.glob(LOGS + '/*.out')):
     base=os.path.basename(f)[:-4]
     sid,prop=base.rsplit('-',1)
+    if not os.path.isdir('/verif/seeded/%s'%sid): continue   # logs of other patches run through the rig
     out=open(f).read()
     m=re.search(r'^%s (quick|thorough): (\d+)/(\d+) theorems checked.*?\((\d+) diffs\).*?\((\d+) failures, (\d+) listed' % prop, out, re.M)
     viol='VIOLATION' in out
